@@ -196,7 +196,7 @@ class TrioRun:
             if self.record_sites:
                 caller.sites.append(suspension_site(caller.program_coro))
             c = caller.cancel
-            if c is not None and caller.cancel_fired_at is None and caller.susp == c["at"]:
+            if c is not None and caller.cancel_fired_at is None and caller.susp == c.get("at"):
                 caller.cancel_fired_at = caller.susp
                 caller.cancel_site = suspension_site(caller.program_coro)
                 caller.in_shield_at_cancel = self.shield_depth.get(caller.id, 0) > 0
@@ -491,6 +491,19 @@ class TrioRun:
         finally:
             self._remove_shield_probe()
 
+    def _on_assigned_by_other(self, actor):
+        caller = next((c for c in self.callers if c.id == actor), None)
+        if caller is None or caller.cancel is None or caller.cancel.get("on_assign") is None or caller.cancel_fired_at is not None:
+            return
+        caller.assigned_by_other = getattr(caller, "assigned_by_other", 0) + 1
+        if caller.assigned_by_other != caller.cancel["on_assign"] or caller.scope is None or caller.state == "done":
+            return
+        caller.cancel_fired_at = caller.susp
+        caller.cancel_site = suspension_site(caller.program_coro)
+        caller.in_shield_at_cancel = self.shield_depth.get(caller.id, 0) > 0
+        caller.cancelled_on_assign = True
+        caller.scope.cancel()
+
     def _apply_pending_jump(self):
         if not getattr(self, "_jump_pending", False):
             return
@@ -545,10 +558,32 @@ class TrioRun:
 
         ev_cls.set = set_
         self._event_cls = ev_cls
+        # "cancelled while being served": a caller may be cancelled at the very moment ANOTHER task hands its queued request a connection
+        # (cancel = {"on_assign": n}: at the n-th such hand-over), i.e. after the wake-up was issued and before the woken caller has run
+        from httpcore._async import connection_pool as pool_mod
+        req_cls = getattr(pool_mod, "AsyncPoolRequest", None)
+        self._req_cls = None
+        if req_cls is not None and hasattr(req_cls, "assign_to_connection"):
+            self._req_cls = req_cls
+            self._orig_req_init, self._orig_req_assign = req_cls.__init__, req_cls.assign_to_connection
+
+            def init_(pr, *a, **k):
+                run._orig_req_init(pr, *a, **k)
+                pr._vf_actor = run.world.current_actor
+
+            def assign_(pr, connection):
+                run._orig_req_assign(pr, connection)
+                actor = getattr(pr, "_vf_actor", None)
+                if connection is not None and actor is not None and actor != run.world.current_actor:
+                    run._on_assigned_by_other(actor)
+
+            req_cls.__init__, req_cls.assign_to_connection = init_, assign_
 
     def _remove_shield_probe(self):
         self._shield_cls.__enter__, self._shield_cls.__exit__ = self._orig_enter, self._orig_exit
         self._event_cls.set = self._orig_event_set
+        if getattr(self, "_req_cls", None) is not None:
+            self._req_cls.__init__, self._req_cls.assign_to_connection = self._orig_req_init, self._orig_req_assign
 
     def run(self):
         _deterministic_scheduling()
